@@ -435,6 +435,10 @@ func (c *config) Clear() {
 	config.backends = c.backends
 	config.backends.Clear()
 
+	// copying acme storages, so the ones a full reconciliation
+	// does not declare anymore can be removed from the work queue
+	config.acmeData.CarryStorages(c.acmeData)
+
 	*c = *config
 }
 
